@@ -222,7 +222,10 @@ def check_property(prop, cfg, tier="quick", seed=0):
         # bounded fallbacks: consulted ONLY when the deductive check is undecided (lost anchor, construct outside the subset, ...). A failing
         # input they find on the real code is a violation with a concrete replay; finding none leaves the verdict undecided (exit 2).
         if not violations and (tool_errors or undecided):
-            for eng in cfg.get("fallback", []):
+            fb = list(cfg.get("fallback", []))
+            if tier != "thorough":
+                fb += [e for e in cfg.get("thorough_engines", []) if e not in fb]     # the real-code history replays double as fallbacks
+            for eng in fb:
                 r = eng(prop, tier, work)
                 for o, info in r["obligations"].items():
                     obligations[o] = info
